@@ -79,6 +79,141 @@ theorem foldl_cursor_map {α : Type} (G : α → α) (l : List α) :
   simpa using this
 
 
+/-! ## write-back loops over two list levels (generic; nothing here is about a particular package)
+
+The loops that go2lean_own.go emits for `for i, v := range C { … v.f = e … }` are
+left folds over `C.zipIdx` whose step ends in `C := C.set i v`.  Three shapes occur:
+
+* CURSOR LOOP (`foldl_cursor_via`, with an accumulator `foldl_cursor_acc`): the
+  state is `ψ C s` (a record that holds the container `C` and whatever else the
+  loop accumulates), the step replaces element `i` by `G s x` and moves the
+  accumulator to `H s x`; the result is `ψ (mapAcc G H s C) (C.foldl H s)`.
+* FILL LOOP (`foldl_fill`): the container was made with the length of the list
+  ranged over (`make([]*T, len(l))`) and element `i` is assigned (and read back)
+  in round `i`; the step equation is needed only for `i < C.length`.
+* INNER LOOP WITH WRITE-THROUGH (`foldl_shadow`): a loop nested in a cursor loop
+  updates its own container `c` and, after every write, the enclosing one
+  (`n := W n c`); since a later write at the same place wins (`hW`), the inner
+  loop is the fold on `c` alone, followed by one write.
+`foldl_comm` moves a fold along any change of representation of its state. -/
+
+/-- a fold commutes with a change of representation of its state -/
+theorem foldl_comm {C D X : Type} (ψ : D → C) (f : C → X → C) (g : D → X → D)
+    (h : ∀ d x, f (ψ d) x = ψ (g d x)) (l : List X) (d : D) :
+    l.foldl f (ψ d) = ψ (l.foldl g d) := by
+  induction l generalizing d with
+  | nil => rfl
+  | cons a l ih => simp only [List.foldl_cons, h, ih]
+
+/-- the list that a cursor loop with an accumulator leaves behind -/
+def mapAcc {α σ : Type} (G : σ → α → α) (H : σ → α → σ) : σ → List α → List α
+  | _, [] => []
+  | s, a :: l => G s a :: mapAcc G H (H s a) l
+
+theorem mapAcc_const {α σ : Type} (G : α → α) (H : σ → α → σ) (s : σ) (l : List α) :
+    mapAcc (fun _ => G) H s l = l.map G := by
+  induction l generalizing s with
+  | nil => rfl
+  | cons a l ih => simp [mapAcc, ih]
+
+/-- CURSOR LOOP WITH AN ACCUMULATOR -/
+theorem foldl_cursor_acc {C α σ : Type} (ψ : List α → σ → C) (step : C → α × Nat → C)
+    (G : σ → α → α) (H : σ → α → σ)
+    (h : ∀ acc s x i, step (ψ acc s) (x, i) = ψ (acc.set i (G s x)) (H s x))
+    (l pre post : List α) (s : σ) :
+    (l.zipIdx pre.length).foldl step (ψ (pre ++ l ++ post) s) = ψ (pre ++ mapAcc G H s l ++ post) (l.foldl H s) := by
+  induction l generalizing pre s with
+  | nil => simp [mapAcc]
+  | cons a l ih =>
+    simp only [List.zipIdx_cons, List.foldl_cons, mapAcc, h]
+    have h1 : (pre ++ a :: l ++ post).set pre.length (G s a) = (pre ++ [G s a]) ++ l ++ post := by simp
+    rw [h1]
+    have h2 := ih (pre ++ [G s a]) (H s a)
+    simp only [List.length_append, List.length_singleton] at h2
+    rw [h2]; simp
+
+theorem foldl_cursor_acc' {C α σ : Type} (ψ : List α → σ → C) (step : C → α × Nat → C)
+    (G : σ → α → α) (H : σ → α → σ)
+    (h : ∀ acc s x i, step (ψ acc s) (x, i) = ψ (acc.set i (G s x)) (H s x))
+    (l : List α) (s : σ) :
+    l.zipIdx.foldl step (ψ l s) = ψ (mapAcc G H s l) (l.foldl H s) := by
+  have := foldl_cursor_acc ψ step G H h l [] [] s
+  simpa using this
+
+/-- CURSOR LOOP (no accumulator) through a representation -/
+theorem foldl_cursor_via {C α : Type} (ψ : List α → C) (step : C → α × Nat → C) (G : α → α)
+    (h : ∀ acc x i, step (ψ acc) (x, i) = ψ (acc.set i (G x))) (l : List α) :
+    l.zipIdx.foldl step (ψ l) = ψ (l.map G) := by
+  have := foldl_cursor_acc' (σ := Unit) (fun a _ => ψ a) step (fun _ => G) (fun _ _ => ())
+    (fun acc _ x i => h acc x i) l ()
+  rw [mapAcc_const] at this
+  exact this
+
+/-- FILL LOOP: the container was made with the right length and every element is assigned -/
+theorem foldl_fill_gen {C α β : Type} (ψ : List α → C) (step : C → β × Nat → C) (F : β → α)
+    (h : ∀ acc x i, i < acc.length → step (ψ acc) (x, i) = ψ (acc.set i (F x)))
+    (l : List β) (pre init post : List α) (hlen : init.length = l.length) :
+    (l.zipIdx pre.length).foldl step (ψ (pre ++ init ++ post)) = ψ (pre ++ l.map F ++ post) := by
+  induction l generalizing pre init with
+  | nil =>
+    have : init = [] := List.eq_nil_of_length_eq_zero (by simpa using hlen)
+    simp [this]
+  | cons a l ih =>
+    match init, hlen with
+    | b :: init, hlen =>
+      simp only [List.zipIdx_cons, List.foldl_cons]
+      rw [h _ _ _ (by simp)]
+      have h1 : (pre ++ b :: init ++ post).set pre.length (F a) = (pre ++ [F a]) ++ init ++ post := by simp
+      rw [h1]
+      have h2 := ih (pre ++ [F a]) init (by simpa using hlen)
+      simp only [List.length_append, List.length_singleton] at h2
+      rw [h2]; simp
+
+theorem foldl_fill {C α β : Type} (ψ : List α → C) (step : C → β × Nat → C) (F : β → α)
+    (h : ∀ acc x i, i < acc.length → step (ψ acc) (x, i) = ψ (acc.set i (F x)))
+    (l : List β) (init : List α) (hlen : init.length = l.length) :
+    l.zipIdx.foldl step (ψ init) = ψ (l.map F) := by
+  have := foldl_fill_gen ψ step F h l [] init [] hlen
+  simpa using this
+
+/-- INNER LOOP THAT ALSO WRITES THE ENCLOSING CONTAINER -/
+theorem foldl_shadow {N C X : Type} (W : N → C → N) (hW : ∀ n a b, W (W n a) b = W n b)
+    (f : C → X → C) (step : N × C → X → N × C)
+    (h : ∀ n c x, step (n, c) x = (W n (f c x), f c x)) (l : List X) (n : N) (c : C) :
+    (l.foldl step (n, c)).2 = l.foldl f c ∧
+    (∀ d, W (l.foldl step (n, c)).1 d = W n d) ∧
+    (l.foldl step (W n c, c)).1 = W n (l.foldl f c) := by
+  induction l generalizing n c with
+  | nil => exact ⟨rfl, fun _ => rfl, rfl⟩
+  | cons a l ih =>
+    simp only [List.foldl_cons, h]
+    obtain ⟨i1, i2, i3⟩ := ih (W n (f c a)) (f c a)
+    refine ⟨i1, fun d => by rw [i2, hW], ?_⟩
+    rw [hW] at i3 ⊢
+    rw [i3, hW]
+
+
+/-- THE TWO-LEVEL PRINCIPLE: a cursor loop over `l` (the container of `ψ l`) nested in another
+    cursor loop.  Its state is (enclosing object `n`, own object `c`); every round replaces element
+    `j` of the own container by `G x` and writes the own object through (`W`).  The own object ends
+    as `ψ (l.map G)`; the enclosing one has received exactly that write when it held the own object
+    before the loop, and in any case a later write hides what the loop wrote. -/
+theorem foldl_inner_cursor {N C α : Type} (W : N → C → N) (hW : ∀ n a b, W (W n a) b = W n b)
+    (f : C → α × Nat → C) (step : N × C → α × Nat → N × C)
+    (h : ∀ n c p, step (n, c) p = (W n (f c p), f c p))
+    (ψ : List α → C) (G : α → α) (hf : ∀ acc x j, f (ψ acc) (x, j) = ψ (acc.set j (G x)))
+    (l : List α) (n : N) :
+    (l.zipIdx.foldl step (W n (ψ l), ψ l)).1 = W n (ψ (l.map G)) ∧
+    (l.zipIdx.foldl step (n, ψ l)).2 = ψ (l.map G) ∧
+    (∀ d, W (l.zipIdx.foldl step (n, ψ l)).1 d = W n d) := by
+  obtain ⟨h1, h2, h3⟩ := foldl_shadow W hW f step h l.zipIdx n (ψ l)
+  have hc := foldl_cursor_via ψ f G hf l
+  exact ⟨by rw [h3, hc], by rw [h1, hc], h2⟩
+
+theorem getBang_set {α : Type} [Inhabited α] (l : List α) (i : Nat) (a : α) (h : i < l.length) :
+    (l.set i a)[i]! = a := by
+  simp [h]
+
 /-! ## straight-line functions, for every reading of the primitives -/
 
 theorem bool_ite (b : Bool) : (if b = true then true else false) = b := by cases b <;> rfl
@@ -220,5 +355,74 @@ theorem Negate_oneRow (cd : String) (ret : Bool) (r : RateTotal) (am : Amount) (
 
 theorem Negate_none [NumOps] : TaxTotalsSrc.Total_Negate none = none := by
   unfold TaxTotalsSrc.Total_Negate; simp [Id.run, id_pure]
+
+/-! ## `Clone`, `Negate` for summaries of any shape -/
+
+theorem Clone_inner (acc : List CategoryTotal) (s sp : Amount) (i : Nat) (hi : i < acc.length) (c0 : CategoryTotal)
+    (l : List RateTotal) (init : List RateTotal) (hlen : init.length = l.length) :
+    List.foldl
+      (fun (s : Total) (x_1 : RateTotal × Nat) =>
+        ({ categories :=
+            s.categories.set i
+              { code := s.categories[i]!.code, retained := s.categories[i]!.retained,
+                rates := s.categories[i]!.rates.set x_1.snd x_1.fst,
+                amount := s.categories[i]!.amount, surcharge := s.categories[i]!.surcharge,
+                amountP := s.categories[i]!.amountP },
+           sum := s.sum, sumP := s.sumP } : Total))
+      ⟨acc.set i { c0 with rates := init }, s, sp⟩ l.zipIdx
+    = ⟨acc.set i { c0 with rates := l }, s, sp⟩ := by
+  have := foldl_fill (fun rs => (⟨acc.set i { c0 with rates := rs }, s, sp⟩ : Total))
+    (fun (s : Total) (x_1 : RateTotal × Nat) =>
+        ({ categories :=
+            s.categories.set i
+              { code := s.categories[i]!.code, retained := s.categories[i]!.retained,
+                rates := s.categories[i]!.rates.set x_1.snd x_1.fst,
+                amount := s.categories[i]!.amount, surcharge := s.categories[i]!.surcharge,
+                amountP := s.categories[i]!.amountP },
+           sum := s.sum, sumP := s.sumP } : Total)) id
+    (by intro rs y j hj; simp [hi, List.set_set]) l init hlen
+  simpa using this
+
+theorem Clone_eq (t : Total) : TaxTotalsSrc.Total_Clone (some t) = some t := by
+  unfold TaxTotalsSrc.Total_Clone
+  simp only [forIn_list_id, pure_bind]
+  simp only [Id.run, id_pure, ite_yield_id, forList_fold, clone_eq, Int.toNat_natCast, Option.get!_some,
+    Option.isNone_some, Bool.false_eq_true, if_false]
+  rw [foldl_fill (fun cats => (⟨cats, default, default⟩ : Total)) _ id ?h t.categories _ (by simp)]
+  case h =>
+    intro acc x i hi
+    simp only [getBang_set, hi, List.set_set]
+    rcases x with ⟨cd, ret, rs, am, su, ap⟩
+    cases su with
+    | none =>
+      simp only [Option.isSome_none, Bool.false_eq_true, if_false]
+      exact Clone_inner acc default default i hi ⟨cd, ret, [], am, none, ap⟩ rs _ (by simp)
+    | some v =>
+      simp only [Option.isSome_some, if_true, Option.get!_some]
+      exact Clone_inner acc default default i hi ⟨cd, ret, [], am, some v, ap⟩ rs _ (by simp)
+  simp
+
+theorem Negate_eq (t : Total) : @TaxTotalsSrc.Total_Negate faithfulOps (some t) = some t.negate := by
+  unfold TaxTotalsSrc.Total_Negate
+  rw [Clone_eq]
+  simp only [forIn_list_id, pure_bind]
+  simp only [Id.run, id_pure, List.set_set, ite_yield_id, forList_fold, Option.get!_some,
+    Option.isNone_some, Bool.false_eq_true, if_false, f_negate]
+  rw [foldl_cursor_via (fun cats => (⟨cats, t.sum, t.sumP⟩ : Total)) _ CategoryTotal.negate ?h t.categories]
+  case h =>
+    intro acc x i
+    rcases x with ⟨cd, ret, rs, am, su, ap⟩
+    cases su <;>
+    · simp only [Option.isSome_none, Option.isSome_some, Bool.false_eq_true, if_false, if_true, Option.get!_some]
+      rw [(foldl_inner_cursor (N := Total) (C := CategoryTotal)
+        (fun n c => ⟨n.categories.set i c, n.sum, n.sumP⟩) (by intro n a b; simp [List.set_set])
+        (fun c p => { c with rates := c.rates.set p.2 p.1.negate }) _ ?h2
+        (fun rs' => ⟨cd, ret, rs', am.negate, _, ap.negate⟩) RateTotal.negate (by intro acc x j; rfl) rs ⟨acc, t.sum, t.sumP⟩).1]
+      case h2 =>
+        intro n c p
+        rcases p with ⟨⟨k, cn, e, b, pc, su, a⟩, j⟩
+        cases su <;> simp [RateTotal.negate]
+      simp [CategoryTotal.negate]
+  simp [Total.negate, Total.clone]
 
 end GoblVerif.Proofs.TaxTotalsSrc
